@@ -68,6 +68,11 @@ def extract(facts, tname):
                         raise AnchorMissing("%s: unit loop is not a zip of chunk iterators" % tname)
                     ia, ca = chain_of(it["recv"])
                     ib, cb = chain_of(it["args"][0])
+                    # only the block iterators themselves: any further adaptor (skip, rev, step_by, ..) changes which blocks are transformed
+                    if [c["name"] for c in ca] not in (["chunks"], ["chunks", "take"], ["as_ref", "chunks"], ["as_ref", "chunks", "take"]) \
+                            or [c["name"] for c in cb] not in (["chunks_mut"], ["as_mut", "chunks_mut"]):
+                        raise AnchorMissing("%s: unit loop at line %s is not <input>.chunks(n)[.take(k)].zip(<output>.chunks_mut(m)): %s / %s"
+                                            % (tname, se.get("ln"), [c["name"] for c in ca], [c["name"] for c in cb]))
                     info["units"].append({"in_base": sx.eval(ia, inner_st), "in_chain": [(c["name"], [sx.eval(a, inner_st) for a in c["args"]]) for c in ca],
                                           "out_base": sx.eval(ib, inner_st), "out_chain": [(c["name"], [sx.eval(a, inner_st) for a in c["args"]]) for c in cb],
                                           "call": units[0], "names": names, "node": se})
@@ -76,6 +81,9 @@ def extract(facts, tname):
                 if it.get("k") == "mcall" and it["name"] == "zip":
                     ia, ca = chain_of(it["recv"])
                     ib, cb = chain_of(it["args"][0])
+                    if [c["name"] for c in ca] not in (["iter"], ["as_ref", "iter"]) or [c["name"] for c in cb] not in (["iter_mut", "skip", "take"], ["iter_mut", "take"], ["iter_mut"]):
+                        raise AnchorMissing("%s: element copy loop at line %s is not <src>.iter().zip(<dst>.iter_mut()[.skip(a)][.take(b)]): %s / %s"
+                                            % (tname, se.get("ln"), [c["name"] for c in ca], [c["name"] for c in cb]))
                     info["elemcopies"].append({"src_base": sx.eval(ia, inner_st), "src_chain": [(c["name"], [sx.eval(a, inner_st) for a in c["args"]]) for c in ca],
                                                "dst_base": sx.eval(ib, inner_st), "dst_chain": [(c["name"], [sx.eval(a, inner_st) for a in c["args"]]) for c in cb],
                                                "body": se["body"], "names": names, "node": se})
